@@ -227,15 +227,15 @@ def units(tier, seed=0):
                                    dict(ispriv=ispriv, iswrite=iswrite, n_fixed=0, remap=INJECTIVE, ee_sym=False,
                                         ttbr_mask=0xFFFFFF80), max_paths=500000, max_seconds=3000, weight=10)
                 if (ispriv, iswrite) == (False, True):
-                    for tb in (0, 1):
-                        us += split_sd('sd_walk/N2/ttbr%d/%s' % (tb, tag),
-                                       dict(ispriv=ispriv, iswrite=iswrite, n_fixed=2, remap=INJECTIVE, ee_sym=False,
-                                            ttbr_mask=0xFFFFFF80, ttbr=tb), max_paths=500000, max_seconds=3000,
-                                       weight=10)
-                if (ispriv, iswrite) == (True, False):
-                    us += split_sd('sd_walk/N1/ttbr1/%s' % tag,
-                                   dict(ispriv=ispriv, iswrite=iswrite, n_fixed=1, remap=INJECTIVE, ee_sym=False,
-                                        ttbr_mask=0xFFFFFF80, ttbr=1), max_paths=500000, max_seconds=3000, weight=10)
+                    us += split_sd('sd_walk/N2/ttbr0/%s' % tag,
+                                   dict(ispriv=ispriv, iswrite=iswrite, n_fixed=2, remap=INJECTIVE, ee_sym=False,
+                                        ttbr_mask=0xFFFFFF80, ttbr=0), max_paths=500000, max_seconds=3000, weight=10)
+                    # through TTBR1 (measured ~1.5x the cost of the TTBR0 walks): sections and small pages
+                    us += [u for u in split_sd('sd_walk/N2/ttbr1/%s' % tag,
+                                               dict(ispriv=ispriv, iswrite=iswrite, n_fixed=2, remap=INJECTIVE,
+                                                    ee_sym=False, ttbr_mask=0xFFFFFF80, ttbr=1), max_paths=500000,
+                                               max_seconds=3000, weight=10)
+                           if u.name.endswith(('/l1=2', '/l2=2', '/l1=0'))]
             else:
                 for n in (0, 1, 2, 7):
                     us += split_sd('sd_walk/N%d/ee-sym/%s' % (n, tag),
@@ -338,7 +338,7 @@ META = {
                    'MAIR attribute decode and shareability are compared with the B3.19.6 TranslationTableWalkLD oracle; '
                    'a translation succeeds exactly when the oracle reports no fault.',
     'bounds': ['short-descriptor format, stage 1, SCTLR.TRE = 1, hardware access-flag update off',
-               'quick: TTBCR.N = 0 (user reads, privileged writes), N = 2 (user writes, one unit per TTBR), N = 1 through TTBR1 (privileged reads), SCTLR.EE = 0, one injective PRRR/NMRR setting, TTBR attribute bits [6:0] fixed; thorough: N in {0,1,2,7} with EE symbolic, PRRR/NMRR fully symbolic for N = 0, and a no-security-extension configuration',
+               'quick: TTBCR.N = 0 (user reads, privileged writes), N = 2 (user writes; every descriptor type through TTBR0, sections / small pages / invalid first-level entries through TTBR1), SCTLR.EE = 0, one injective PRRR/NMRR setting, TTBR attribute bits [6:0] fixed; thorough: N in {0,1,2,7} with EE symbolic, PRRR/NMRR fully symbolic for N = 0, and a no-security-extension configuration',
                'long-descriptor format: stage 1 at PL1&0 and the Hyp-mode stage 1 (HTTBR/HTCR/HMAIRn; Hyp-mode AP/PXN/nG '
                'settings the architecture calls UNPREDICTABLE excluded), no stage 2, FCSE PID = 0; each unit pins '
                'T0SZ/T1SZ (quick: 8 pairs; thorough: all 64 pairs for walks ending at their first level, 8 pairs for '
